@@ -255,6 +255,7 @@ func checkTokenBucket(c *Ctx, rule string) {
 	name := "app." + tname + "." + allow.Name()
 	// classify float fields by role: "tokens" = the field that is decremented by 1; "burst" = the field compared > with tokens and stored into it
 	var tokensField, burstField, lastField string
+	var minClamp []*ssa.Store
 	for _, b := range allow.Blocks {
 		for _, ins := range b.Instrs {
 			st, ok := ins.(*ssa.Store)
@@ -289,6 +290,15 @@ func checkTokenBucket(c *Ctx, rule string) {
 			if _, f, _ := fieldAddrName(fa); f == tokensField {
 				if _, f2, ok := fieldOfLoad(st.Val); ok && f2 != tokensField {
 					burstField = f2
+				}
+				// clamp written as tokens = math.Min(burst, tokens + …)
+				if call, ok := st.Val.(*ssa.Call); ok && calleeIs(call, "math", "", "Min") {
+					for _, a := range call.Call.Args {
+						if _, f2, ok := fieldOfLoad(a); ok && f2 != tokensField {
+							burstField = f2
+							minClamp = append(minClamp, st)
+						}
+					}
 				}
 			}
 		}
@@ -358,7 +368,14 @@ func checkTokenBucket(c *Ctx, rule string) {
 			}
 		}
 	}
-	c.Check(len(refill) >= 1 && len(clamp) >= 1 && len(take) >= 1, rule, name+":refill-clamp-take-present", p.Pos(allow.Pos()), fmt.Sprintf("%d refill, %d clamp, %d take store(s)", len(refill), len(clamp), len(take)), "the admit method lacks a refill, a clamp to burst or a take-one store")
+	if len(minClamp) > 0 {
+		// refill and clamp in one store: nothing can come between them
+		clamp = append(clamp, minClamp...)
+		if len(refill) == 0 {
+			refill = nil
+		}
+	}
+	c.Check((len(refill) >= 1 || len(minClamp) >= 1) && len(clamp) >= 1 && len(take) >= 1, rule, name+":refill-clamp-take-present", p.Pos(allow.Pos()), fmt.Sprintf("%d refill, %d clamp, %d take store(s)", len(refill), len(clamp), len(take)), "the admit method lacks a refill, a clamp to burst or a take-one store")
 	for _, rf := range refill {
 		// every path from the refill to a `tokens >= 1` edge passes clamp or notOver
 		stop := map[*ssa.BasicBlock]bool{}
@@ -433,6 +450,27 @@ func checkTokenBucket(c *Ctx, rule string) {
 		if !bad {
 			c.Ok(rule, name+":elapsed-time-consumed", p.Pos(allow.Pos()), "every path with dt > 0 stores clock = now")
 		}
+	}
+	// (c2) the bucket clock never moves backwards: every store to it is behind `elapsed > 0` or `clock.IsZero()`
+	var zeroE []Edge
+	for _, b := range allow.Blocks {
+		for i := range b.Succs {
+			a, ok := edgeAtom(Edge{b, i})
+			if !ok || !isBoolTrue(a.Y) || a.Op != token.EQL {
+				continue
+			}
+			if call, ok := a.X.(*ssa.Call); ok && calleeIs(call, "time", "Time", "IsZero") {
+				if _, f, ok := fieldOfLoad(call.Call.Args[0]); ok && f == lastField {
+					zeroE = append(zeroE, Edge{b, i})
+				}
+			}
+		}
+	}
+	for i, a := range adv {
+		okM, _ := p.MustPass(allow, a, append(append([]Edge{}, dtPos...), zeroE...))
+		c.Check(okM && len(dtPos)+len(zeroE) > 0, rule, fmt.Sprintf("%s:clock-store#%d never moves the clock backwards", name, i+1), p.InstrPos(a),
+			"stored only when time has advanced (elapsed > 0) or the clock was unset",
+			"the bucket clock is overwritten without knowing that the new instant is later: a request carrying an older timestamp (the clock is read before the limiter's mutex is taken) rewinds it, and the interval already paid out is credited again — more than burst + rps×window is admitted")
 	}
 	// (d) mutex
 	lm := p.lockAnalysis("app", tname, "mu")
